@@ -23,6 +23,16 @@ func cfgOnePerMsg(members int, joiner bool) Cfg {
 	return Cfg{Name: "raftexample with MaxSizePerMsg=0 (one entry per MsgApp)", ElectionTick: 1 << 30, MaxSizePerMsg: 0, Members: members, Joiner: joiner}
 }
 
+// withJoiners returns cfg with n empty nodes (Members+1 .. Members+n) next to the members.
+func withJoiners(cfg Cfg, n int) Cfg {
+	cfg.Joiner = n > 0
+	cfg.Joiners = 0
+	if n > 1 {
+		cfg.Joiners = n
+	}
+	return cfg
+}
+
 // Sizes below were measured on this machine (16 workers, other jobs running): quick explores
 // about 3.7 M states in 40-80 s (B9, the snapshot/compaction box, is 0.32 M of them and closes
 // in 4-9 s), thorough 36 M states in 17 min at load average 60+ (more when idle; B9, B9b, B9c
@@ -133,16 +143,21 @@ func makeBoxes(tier string) []*Box {
 		// development aid: a box given as JSON, e.g.
 		// {"mode":"B","cfg":"plain","members":3,"joiner":false,"budgets":{...},"max_deviations":1,"kinds":"CPHKRS"}
 		var t struct {
-			Mode    string `json:"mode"`
-			Cfg     string `json:"cfg"`
-			Members int    `json:"members"`
-			Joiner  bool   `json:"joiner"`
-			Bud     Budget `json:"budgets"`
-			MaxDev  int    `json:"max_deviations"`
-			Depth   int    `json:"max_depth"`
-			Kinds   string `json:"kinds"`
-			Devs    string `json:"devs"`
-			LP      bool   `json:"leader_propose"`
+			Mode    string           `json:"mode"`
+			Cfg     string           `json:"cfg"`
+			Members int              `json:"members"`
+			Joiner  bool             `json:"joiner"`
+			Joiners int              `json:"joiners"`
+			LagAt   uint8            `json:"lag_at"`
+			CampBy  map[uint64][]int `json:"campaign_by"`
+			ConfVar []uint16         `json:"conf_variants"`
+			CampAt  uint8            `json:"campaign_at"`
+			Bud     Budget           `json:"budgets"`
+			MaxDev  int              `json:"max_deviations"`
+			Depth   int              `json:"max_depth"`
+			Kinds   string           `json:"kinds"`
+			Devs    string           `json:"devs"`
+			LP      bool             `json:"leader_propose"`
 		}
 		if err := json.Unmarshal([]byte(tj), &t); err != nil {
 			panic(err)
@@ -174,6 +189,10 @@ func makeBoxes(tier string) []*Box {
 			}
 		}
 		b.LeaderPropose = t.LP
+		if t.Joiners > 0 {
+			b.Cfg = withJoiners(b.Cfg, t.Joiners)
+		}
+		b.LagAt, b.CampaignBy, b.ConfVariants, b.CampaignAt = t.LagAt, t.CampBy, t.ConfVar, t.CampAt
 		bs = append(bs, b)
 	}
 	for _, b := range bs {
